@@ -15,7 +15,9 @@ mod c04;
 mod c05;
 mod c07;
 mod c15;
+mod c16;
 mod c17;
+mod c18;
 mod c20;
 
 #[global_allocator]
@@ -52,6 +54,10 @@ fn main() {
         "c07-laws" => c07::laws_leg(&args),
         "c20-dump" => c20::dump_cmd(&args),
         "c20-repro" => c20::repro_leg(&args),
+        "c16-parsers" => c16::parsers_leg(&args),
+        "c16-script" => c16::script_leg(&args),
+        "c18-digest" => c18::digest_leg(&args),
+        "c18-sync" => c18::sync_leg(&args),
         "c15-parse" => c15::parse_leg(&args),
         "c15-frag" => c15::frag_leg(&args),
         "c15-reply" => c15::reply_leg(&args),
